@@ -70,7 +70,7 @@ impl Property for C15 {
         "cases: a victim process fails at a generated point (builtin domain errors, missing file, ownership violation, injected backend write error, spawn/send/nested select inside a receive filter) inside a generated system of by-standers, direct and transitive single-source awaiters that await before, during or after the failure, senders to the victim before/after its death, and a multi-source selector (counted, not judged); each scenario runs under V sampled schedule/configuration variants. Non-trivial: >=2 workers, >=1 out-of-order handled message or injected fault, conclusive. Distinct = distinct (scenario shape, interleaving hash) pairs."
     }
     fn required_probes(&self) -> Vec<&'static str> {
-        vec!["awaiter_failed_with_victims_error", "bystander_unaffected", "client_saw_victim_error", "sender_to_dead_unaffected"]
+        vec!["awaiter_failed_with_victims_error", "bystander_unaffected", "client_saw_victim_error", "sender_to_dead_unaffected", "repl_session_survived_odd_line"]
     }
     fn draw_cfg(&self, rng: &mut Rng, scn: &Scenario) -> crate::world::RunCfg {
         // the failure is the scenario's own; no additional random backend faults
@@ -79,6 +79,9 @@ impl Property for C15 {
         c
     }
     fn generate(&self, rng: &mut Rng, _tier: Tier) -> Scenario {
+        if rng.chance(1, 8) {
+            return repl_session(rng);
+        }
         let fails = [
             Fail::DivZero,
             Fail::DivZero,
@@ -243,6 +246,14 @@ impl Property for C15 {
     fn judge(&self, scn: &Scenario, _refdata: Option<&RefData>, r: &RunResult) -> Vec<Violation> {
         let mut v = Vec::new();
         let e = &scn.expect;
+        if let Some(fin) = e.get("repl_final").and_then(|x| x.as_str()) {
+            // an ill-behaved REPL line must not take the worker (and with it the by-stander) down
+            match r.outs.last() {
+                Some(Out::Value(s)) if s == fin => {}
+                other => v.push(Violation::new("C15", "containment", "session-or-bystander-lost", format!("after an ill-behaved REPL line the session yielded {:?}; expected the by-stander's result {fin}", other), r.steps)),
+            }
+            return v;
+        }
         let vpath = e["victim"].as_str().unwrap_or("");
         let Some(verr) = r.procs.get(vpath) else {
             v.push(Violation::new("C15", "victim", "missing", format!("victim {vpath} not found in {:?}", r.procs.keys()), r.steps));
@@ -295,10 +306,56 @@ impl Property for C15 {
     }
 }
 
+/// REPL lines that leave the session in an odd state: a line cut short by nil (later bindings
+/// never bound), a tail call at the top level, an await of a never-bound "process". None may crash
+/// a worker; a by-stander spawned earlier must still be awaitable.
+fn repl_session(rng: &mut Rng) -> Scenario {
+    let n = rng.range(1, 40);
+    let sp = *rng.pick(&[0u32, 30, 200]);
+    let mut ops = vec![ClientOp::Line { session: 0, src: format!("{}, {BY}, b0 = [{n}, {sp}] @by, g = #'int {{ [~, 1] __integer_add__ }}, a = 7", super::c04::SPIN) }];
+    let kind = rng.below(4);
+    let odd = match kind {
+        0 => "a =999999, y = 7, z = [y, 1] __integer_add__",
+        1 => "5 ^g",
+        2 => "a =999999, p = @{ 1 }",
+        _ => "k = 3, a =999999, [u, w] = [k, 0x0102]",
+    };
+    ops.push(ClientOp::Line { session: 0, src: odd.to_string() });
+    if rng.chance(1, 2) {
+        ops.push(ClientOp::Vars { session: 0 });
+    }
+    ops.push(ClientOp::Line { session: 0, src: "a".to_string() });
+    if rng.chance(1, 2) {
+        ops.push(ClientOp::Line { session: 0, src: "c = [a, 1] __integer_add__".to_string() });
+    }
+    ops.push(ClientOp::Line { session: 0, src: "!b0".to_string() });
+    let mut h = crate::rng::Fnv::default();
+    h.u64(0x4e91);
+    h.u64(kind);
+    h.u64(ops.len() as u64);
+    Scenario {
+        family: "c15-repl-odd-line".into(),
+        ops,
+        modules: vec![],
+        files: Default::default(),
+        timing: false,
+        io: false,
+        fixed_faults: Default::default(),
+        expect: serde_json::json!({ "repl_final": (n + 5).to_string() }),
+        shape: h.0,
+        est_len: 100,
+        min_quantum: 0,
+    }
+}
+
 /// Probe counters derived from a judged run (called by the runner through `probes_from`).
 pub fn probes_from(scn: &Scenario, r: &RunResult) -> BTreeMap<String, u64> {
     let mut m = BTreeMap::new();
     let e = &scn.expect;
+    if e.get("repl_final").is_some() {
+        m.insert("repl_session_survived_odd_line".into(), matches!(r.outs.last(), Some(Out::Value(_))) as u64);
+        return m;
+    }
     let vpath = e["victim"].as_str().unwrap_or("");
     let Some(verr) = r.procs.get(vpath) else { return m };
     let n_aw = e["must_carry_victims_error"].as_array().map(|a| a.iter().filter(|p| r.procs.get(p.as_str().unwrap_or("")) == Some(verr)).count()).unwrap_or(0);
